@@ -841,7 +841,7 @@ var litPool = []string{
 	"../proj", "../proj/out.txt", "../../home/proj/top.o", "/",
 }
 
-// outputs below a regular file: os.Stat fails with ENOTDIR (compared with the model, not judged)
+// outputs below a regular file: os.Stat / os.RemoveAll answer ENOTDIR; such a path is simply absent (repair 85950c0)
 var notdirPool = []string{"out.txt/x", "sub/a.o/y/z", "spokfile/x"}
 
 // values of variables used as named outputs (resolved against the working directory by spok)
@@ -981,7 +981,6 @@ func (g *gen) c12Random() *tcase {
 	case r < 0.19:
 		ti := g.taskIndex(tc)
 		tc.stmts[ti].t.files = append(tc.stmts[ti].t.files, g.pick(notdirPool))
-		tc.judge = false
 	}
 	return tc
 }
@@ -1034,7 +1033,6 @@ func c12Singles() []*tcase {
 	}
 	for _, l := range notdirPool {
 		tc := mk(task{files: []string{l, "top.o"}})
-		tc.judge = false
 		out = append(out, tc)
 	}
 	return out
